@@ -25,11 +25,11 @@ const (
 // same schedule from the same tape: channels (default) and, in the race world,
 // race-transparent spinning (no happens-before edge visible to ThreadSanitizer).
 type sched struct {
-	w     *W
-	n     int
-	spin  bool
-	wake  []chan struct{}
-	done  chan struct{}
+	w      *W
+	n      int
+	spin   bool
+	wake   []chan struct{}
+	done   chan struct{}
 	joined chan int // every task reports here after its last access: a real edge task -> orchestrating goroutine only
 
 	// The fields below are touched by every task; in the race world only from
@@ -53,13 +53,13 @@ type sched struct {
 	pctNext int
 
 	// spin-mode tape (fixed arrays, inline splitmix)
-	rs      uint64
-	replay  bool
-	tin     [1 << 16]int32
-	tinLen  int
-	tpos    int
-	tout    [1 << 16]int32
-	toutLen int
+	rs        uint64
+	replay    bool
+	tin       [1 << 16]int32
+	tinLen    int
+	tpos      int
+	tout      [1 << 16]int32
+	toutLen   int
 	schedHash uint64
 }
 
